@@ -239,7 +239,12 @@ def run(task, ctx):
     elif kind == 'strings':
         good = ['', 'a', 'é€\U0001F600', '\x00', 'Ύ', 'a' * 300]
         bad = [b'\xff', b'\xc3', b'abc\xfe', b'\xed\xa0\x80', b'\xc0\xaf',
-               b'\xf4\x90\x80\x80', b'ok\xce\xce\xce']
+               b'\xf4\x90\x80\x80', b'ok\xce\xce\xce',
+               # valid UTF-8 cut inside its last multi-byte sequence
+               b'abc\xe2\x9c', b'r\xc3\xa9sum\xc3', b'\xf0\x9f\x94',
+               b'\x00PLAIN\x00secret\xf0\x9f', b'\xe2', b'a\xe2\x82',
+               # ... and continuation bytes without a lead byte
+               b'\x80', b'abc\xbf', b'\xe2\x82\xac\x80']
         for s in good:
             raw = s.encode('utf-8')
             check_value(ctx, b'S' + struct.pack('>I', len(raw)) + raw,
